@@ -450,6 +450,23 @@ class MarkFeatureWriter(BaseFeatureWriter):
         newDefs = []
         for markAnchorName, glyphAnchorPairs in sorted(markGlyphSets.items()):
             className = ast.makeFeaClassName(classPrefix + markAnchorName)
+            existing = currentClasses.get(className)
+            if existing is not None and any(
+                glyphName in existing.glyphs
+                and not self._anchorsAreEqual(
+                    ast.Anchor(
+                        x=otRoundIgnoringVariable(anchor.x),
+                        y=otRoundIgnoringVariable(anchor.y),
+                    ),
+                    existing.glyphs[glyphName].anchor,
+                )
+                for glyphName, anchor in glyphAnchorPairs.items()
+            ):
+                # some mark glyph is already defined in this markClass with a
+                # different anchor: all the marks of this anchor class go to a
+                # new, uniquely named markClass (not only those that follow the
+                # clashing glyph), so that the class keeps all its members
+                className = ast.makeFeaClassName(className, currentClasses)
             for glyphName, anchor in glyphAnchorPairs.items():
                 mcd = self._defineMarkClass(
                     glyphName, anchor.x, anchor.y, className, currentClasses
